@@ -44,6 +44,8 @@ type Field struct {
 	Card     string `json:"card,omitempty"`      // "" singular | optional | repeated | map
 	MapKey   string `json:"map_key,omitempty"`   // key kind when Card == map
 	Oneof    string `json:"oneof,omitempty"`     // containing (real) oneof name
+	// JSONName is an explicit `json_name` option; "" means protoc's default derivation.
+	JSONName string `json:"json_name,omitempty"`
 	Ann      Ann    `json:"ann"`
 	Rules    *Rules `json:"rules,omitempty"`
 }
